@@ -193,6 +193,17 @@ def unnegate(e):
     return e, pos
 
 
+def relation(e):
+    """orientation-free reading of a built-in inequality: (small, big, strict) for `small < big`
+    (strict) or `small <= big`; `a > b` is `b < a`.  None for anything else."""
+    if e is None or e.kind != 'BinaryOperator' or e.op not in ('<', '<=', '>', '>=') or len(e.kids) != 2:
+        return None
+    l, r = e.kids
+    if e.op in ('<', '<='):
+        return l, r, e.op == '<'
+    return r, l, e.op == '>'
+
+
 def if_outcome(ifstmt, node):
     """the outcome of the un-negated condition of `ifstmt` under which `node` runs: True, False,
     or None when the node is in neither arm.  `if (!(c)) B else A` and `if (c) A else B` agree."""
